@@ -113,7 +113,7 @@ func runPath(ex *Exec, fn *ssa.Function, item workItem) (rec PathRec) {
 				rec.Outcome = p.out
 				rec.Msg = p.msg
 				rec.Violation = ex.violation
-				if p.out == OutPanic || p.out == OutDeadlock || p.out == OutNonTerm {
+				if p.out == OutPanic || p.out == OutDeadlock || p.out == OutNonTerm || (p.out == OutIncomplete && strings.Contains(p.msg, "unwind bound")) {
 					rec.Violation = ex.modelForPath(string(p.out) + ": " + p.msg)
 				}
 			case *goPanicT:
